@@ -350,10 +350,13 @@ PROPS['C11'] = {
              'kinds, number executed, number cancelled).'),
     'min_nontrivial': [100, 1000],
     'require_classes': ['pool_mt:jobs_executed', 'pool_mt:jobs_cancelled', 'pool_mt:stop_origin_pool_worker', 'pool_mt:rounds_with_both_executed_and_cancelled'],
+    'single_thread_scenarios': ('pool_nested',),
     'jobs': [
         J('mt_asan', 'c11.cpp', 'asan', [12000, 600000], scenario='pool_mt', detect_leaks=0),
         J('mt_rel', 'c11.cpp', 'rel', [25000, 1500000], scenario='pool_mt'),
         J('mt_crel', 'c11.cpp', 'crel', [0, 800000], scenario='pool_mt', tiers=(T,)),
+        J('nested_asan', 'c11.cpp', 'asan', [1500, 60000], scenario='pool_nested', threads=1),
+        J('nested_rel', 'c11.cpp', 'rel', [2500, 150000], scenario='pool_nested', threads=1),
     ],
 }
 
